@@ -459,6 +459,8 @@ class Gen:
                 self.f("lazy-call-kw-override")
                 return self.t("identity")(L.add.partial(b=self.lit()))(g(d - 1), b=g(d - 1))
             return self.task_expr(d - 1)(g(d - 1))
+        if k == 28 and r.random() < 0.5:
+            return self.catch_all_multi(d - 1)
         if k == 28:
             self.f("catch_all")
             return catch_all([g(d - 1) for _ in range(r.randrange(1, self.max_fan + 1))], self.classes(),
@@ -511,6 +513,25 @@ class Gen:
                 out.append(g(d - 1))
                 i += 1
         return cond(*out)
+
+    def catch_all_multi(self, d):
+        """catch_all over >= 2 failing terms with distinguishable errors (fast and slow ones mixed), with / without recover,
+        with a covering / partly covering / non-covering error class: the re-raised error is the first in TERM order"""
+        r = self.rng
+        self.f("catch_all-multi-error")
+        terms = [self.err(d) for _ in range(r.randrange(2, 4))] + [self.int(max(d - 1, 0)) for _ in range(r.randrange(0, 2))]
+        r.shuffle(terms)
+        shape = r.randrange(3)
+        if shape == 1:
+            terms = tuple(terms)
+        elif shape == 2:
+            terms = {"k%d" % i: t for i, t in enumerate(terms)}
+        c = r.randrange(4)
+        if c == 0:
+            return catch_all(terms)
+        cls = Exception if c == 1 else self.classes()
+        rec = self.t(r.choice(["rec_count", "rec_count_raise"])) if shape != 2 else self.t("identity")
+        return catch_all(terms, cls, rec)
 
     def classes(self):
         r = self.rng
@@ -665,9 +686,11 @@ class Gen:
         if k == 16:
             self.f("catch")
             return self.t("guard")(self.lit(), self.lit()) if r.random() < 0.5 else self.t("guard_deep")(r.choice(KINDS), self.tag())
+        if k == 17 and r.random() < 0.6:
+            return self.catch_all_multi(d - 1)
         if k == 17:
             self.f("catch_all")
-            return catch_all((g(d - 1), self.cond_val(d - 1), self.task(d - 1)), self.classes(), self.t("identity"))
+            return catch_all((g(d - 1), g(d - 1), self.task(d - 1)), self.classes(), self.t("identity"))
         if k == 18:
             self.f("catch_all")
             return catch_all({"a": g(d - 1), "b": g(d - 1)}, self.classes(), self.t("identity"))
@@ -687,6 +710,8 @@ class Gen:
         return self.cond_expr(d, self.any)
 
     def program(self, depth):
+        if self.rng.random() < 0.06:
+            return self.catch_all_multi(depth)
         k = self.rng.randrange(10)
         if k <= 3:
             return self.int(depth)
